@@ -9,15 +9,15 @@ QUICK_SAMPLE = 20
 def instances(tier, seed):
     c11 = importlib.import_module("c11")
     out = []
-    for i in c11.dft_instances() + c11.svp_instances():
+    for i in c11.dft_instances() + c11.svp_instances() + [x for x in c11.vmp_instances() if x.family == "dft.vmp_apply_dft_to_dft"]:
         i.name = i.name.replace("c11_", "c07_", 1)
         out.append(i)
     return out
 
 
 META = {
-    "bounds": "n=2, 3 columns (4 concrete column assignments), limb counts 1..3, step 1..3, offset 0..3; prepared scalar = concrete Gaussian integers",
-    "outside": "IEEE-754 exactness of fft_ref/ifft_ref/reim4 (symbolic floating-point products), NTT120 kernels and transforms, vmp and bivariate convolution (block-interleaved layouts at n>=8 with substituted reim4 kernels: not built), magnitude-domain statements",
+    "bounds": "vmp: n=8, rows/size/limbs 1..3, cols_in=cols_out=1, concrete matrix; others: n=2, 3 columns (4 concrete column assignments), limb counts 1..3, step 1..3, offset 0..3; prepared scalar = concrete Gaussian integers",
+    "outside": "IEEE-754 exactness of fft_ref/ifft_ref/reim4 (symbolic floating-point products), NTT120 kernels and transforms, bivariate convolution (not built), magnitude-domain statements",
     "assumptions": ["leaf kernels replaced by exact integer kernels on the f64 bit patterns, FFT = identity (harness type Probe): only the repository's limb/size/selection/zero-fill logic around the products is decided"],
     "stubs": ["ReimArith / ReimFFTExecute implemented by harness type Probe"],
 }
